@@ -35,11 +35,13 @@ if capture:
             path = os.fspath(args[0])
             if isinstance(path, bytes):
                 path = path.decode('utf-8', 'replace')
-            if path.endswith(('out.fjm', 'debug.fjd')) and str(args[1]).startswith('r') and path not in seen and os.path.exists(path):
-                seen.add(path)
+            # (whatever the temporary files are called: the first .fjm / .fjd that is opened for reading)
+            kind = 'out.fjm' if path.endswith('.fjm') else 'debug.fjd' if path.endswith('.fjd') else None
+            if kind and kind not in seen and str(args[1]).startswith('r') and path not in seen and os.path.exists(path):
+                seen.add(path); seen.add(kind)
                 with open(path, 'rb') as src:  # re-entrant open of the same file is harmless: it is in `seen`
                     data = src.read()
-                with open(os.path.join(capture, os.path.basename(path)), 'wb') as dst:
+                with open(os.path.join(capture, kind), 'wb') as dst:
                     dst.write(data)
     sys.addaudithook(hook)
 from flipjump.flipjump_cli import main
@@ -506,6 +508,19 @@ def run_shard(spec: Dict[str, Any], journal: Any) -> Dict[str, Any]:
                                  'input': None, 'warns': True}, runnable=True)
             judge.count('warning_bearing_cases')
     if hello.exists():
+        # output that looks like escape sequences, and bytes above 127: the program's bytes are what every route shows
+        esc_dir = workdir / 'escapes'
+        esc_dir.mkdir(exist_ok=True)
+        head, _, tail = hello.read_text().partition("output 'H'")
+        fragments = [b'\\u0041', b'C:\\users\\x', b'\\U0001F600', b'\\N{DASH}', b'\\x41\\n', b'%s{0}', b'\xc3\xa9', b'\xff\xfe', b'\xe2\x82', b'tail\\']
+        for k in range(2):
+            text = b' '.join(rng.sample(fragments, 3)) + rng.choice([b'\\', b'\\u00', b'!', b'\xc3'])
+            body = ''.join(f'    output {byte}\n' for byte in text)
+            (esc_dir / f'escapes{k}.fj').write_text(head + body + '    end_loop\n')
+            judge.one_case(rng, {'name': f'escape-looking-output-{text.hex()}', 'files': [str(esc_dir / f'escapes{k}.fj')], 'width': 64, 'stl': False,
+                                 'input': None}, runnable=True)
+            judge.count('escape_looking_output_cases')
+    if hello.exists():
         # one program spread over many files with long names (the command builds its temporary directory's name from them)
         many_dir = workdir / 'many_files'
         many_dir.mkdir(exist_ok=True)
@@ -518,6 +533,18 @@ def run_shard(spec: Dict[str, Any], journal: Any) -> Dict[str, Any]:
             files.append(str(extra))
         judge.one_case(rng, {'name': 'many-long-file-names', 'files': files, 'width': 64, 'stl': False, 'input': None}, runnable=True)
         judge.count('many_long_file_name_cases')
+        # a source file whose name is as long as the file system allows (whatever a route derives from the name must still fit)
+        limit_dir = workdir / 'name_limit'
+        limit_dir.mkdir(exist_ok=True)
+        for length in (255, rng.choice([254, 253, 251])):
+            limit = limit_dir / ('n' * (length - 3) + '.fj')
+            try:
+                limit.write_text(hello.read_text())
+            except OSError:
+                judge.count('name_limit_not_supported_here')
+                continue
+            judge.one_case(rng, {'name': f'source-name-{length}-bytes', 'files': [str(limit)], 'width': 64, 'stl': False, 'input': None}, runnable=True)
+            judge.count('name_limit_cases')
     # an expression a few hundred operators deep: whether it is "too deep" depends on max_recursion_depth only, not on the
     # recursion limit of the program that hosts the library
     deep_dir = workdir / 'deep'
